@@ -1,9 +1,11 @@
 (* C24 x C21: the hypotheses of the abstract-evaluation theorem are dischargeable.  An entry of the operator table whose result
    is what the strided-interval model computes for + (and for binary -, for every subtrahend whose stride is 0 only if it is a single value) is sound: C21's theorems
-   prove the premise [entry_ok] of C24_table for these operators. *)
+   prove the premise [entry_ok] of C24_table for these operators.  Likewise for unary -, ~, ZeroExt and the eight order
+   comparisons (whose abstract result is a BoolResult: TrueResult / FalseResult / MaybeResult). *)
 From Coq Require Import ZArith List Bool Lia.
 Require Import CV.Spec.BV CV.Model.PyPrelude CV.Model.Ast CV.Model.SI CV.Model.SIUnion CV.Model.AbsInt CV.Proofs.SISound
                CV.Proofs.SIUnionSound CV.Proofs.AbsIntTable.
+Require Import CV.Model.SICmp CV.Model.SINot CV.Model.SIZextM CV.Proofs.SICmpSound CV.Proofs.SINotSound CV.Proofs.SIZext.
 Import ListNotations.
 Open Scope Z_scope.
 
@@ -49,3 +51,103 @@ Proof.
   - exists x. split; [rewrite Br; reflexivity|apply G; auto].
   - exists x. split; [rewrite Br, Hab; reflexivity|apply G; auto].
 Qed.
+
+(* ---- unary -, ~, ZeroExt ---- *)
+
+Theorem neg_entry_ok a r : wf a -> proper a -> si_neg a = Ok r -> entry_ok (ONeg, [], [asi a], asi r).
+Proof.
+  intros Wa Pa Hr. unfold entry_ok. intros vs v HF Hev.
+  inversion HF as [|? va ? ? Ga HF1]; subst. inversion HF1; subst.
+  apply gamma_t_asi in Ga as (x & -> & Gx). cbn [eval_op] in Hev. inversion Hev; subst v.
+  destruct (neg_sound_proper a x Wa Pa Gx) as (r' & E & _ & Br & G). rewrite Hr in E. inversion E; subst r'.
+  apply gamma_t_asi. exists (bvneg (bits a) x). split; [rewrite Br; reflexivity|exact G].
+Qed.
+
+Lemma gamma_range a x : wf a -> SI.gamma a x -> 0 <= x < 2 ^ bits a.
+Proof.
+  intros (_ & Hw & _) (_ & k & _ & _ & ->). apply Z.mod_pos_bound. apply Z.pow_pos_nonneg; lia.
+Qed.
+
+Theorem invert_entry_ok a r : wf a -> proper a -> si_not a = Ok r -> entry_ok (OInvert, [], [asi a], asi r).
+Proof.
+  intros Wa Pa Hr. unfold entry_ok. intros vs v HF Hev.
+  inversion HF as [|? va ? ? Ga HF1]; subst. inversion HF1; subst.
+  apply gamma_t_asi in Ga as (x & -> & Gx). cbn [eval_op] in Hev. inversion Hev; subst v.
+  destruct (not_sound a r x Wa Pa Hr Gx) as (_ & Br & G).
+  apply gamma_t_asi. exists (bvnot (bits a) x). split; [rewrite Br; reflexivity|].
+  pose proof (gamma_range a x Wa Gx) as Hx.
+  replace (bvnot (bits a) x) with (2 ^ bits a - 1 - x); [exact G|].
+  unfold bvnot, wrap, Z.lnot. replace (Z.pred (- x)) with (2 ^ bits a - 1 - x + (-1) * 2 ^ bits a) by lia.
+  rewrite Z.mod_add by lia. symmetry. apply Z.mod_small. lia.
+Qed.
+
+Theorem zext_entry_ok a n r : wf a -> 0 <= n -> bits a + n < SHIFT_LIMIT -> si_zext a (bits a + n) = Ok r ->
+  entry_ok (OZeroExt, [n], [asi a], asi r).
+Proof.
+  intros Wa Hn Hlim Hr. unfold entry_ok. intros vs v HF Hev.
+  inversion HF as [|? va ? ? Ga HF1]; subst. inversion HF1; subst.
+  apply gamma_t_asi in Ga as (x & -> & Gx). cbn [eval_op] in Hev.
+  destruct (0 <=? n) eqn:E; [|discriminate]. inversion Hev; subst v.
+  destruct (zext_sound a (bits a + n) r x Wa ltac:(lia) Hr Gx) as (_ & Br & G).
+  apply gamma_t_asi. exists (zero_extend n x). split; [rewrite Br; reflexivity|exact G].
+Qed.
+
+(* ---- the order comparisons: a BoolResult as an abstract Boolean ---- *)
+
+Definition atri (t : tri) : aval :=
+  match t with TT => ABool true false | TF => ABool false true | TM => ABool true true end.
+
+Lemma atri_ok (R : Prop) (fb : bool) r : (fb = true <-> R) -> (r = TT -> R) -> (r = TF -> ~ R) -> gamma_t (atri r) (VBool fb).
+Proof.
+  intros Hfb Ht Hf. destruct r; cbn [atri gamma_t]; destruct fb eqn:E; try reflexivity.
+  - exfalso. specialize (Ht eq_refl). apply Hfb in Ht. discriminate.
+  - exfalso. apply (Hf eq_refl). apply Hfb. reflexivity.
+Qed.
+
+Section Cmp.
+Variables (a b : si) (r : tri).
+Hypotheses (Wa : wf a) (Wb : wf b).
+
+Local Ltac cmp_entry snd Hr :=
+  unfold entry_ok; intros vs v HF Hev;
+  inversion HF as [|? va ? ? Ga HF1]; subst; inversion HF1 as [|? vb ? ? Gb HF2]; subst; inversion HF2; subst;
+  apply gamma_t_asi in Ga as (x & -> & Gx); apply gamma_t_asi in Gb as (y & -> & Gy);
+  cbn [eval_op cmp_bv] in Hev; destruct (bits a =? bits b); [|discriminate]; inversion Hev; subst v;
+  destruct (snd a b r x y Wa Wb Hr Gx Gy) as [Ht Hf].
+
+Theorem ult_entry_ok : si_ult a b = Ok r -> entry_ok (OULT, [], [asi a; asi b], atri r).
+Proof. intros Hr. cmp_entry ult_sound Hr. apply (atri_ok (x < y)); [unfold bvult; apply Z.ltb_lt|exact Ht|exact Hf]. Qed.
+
+Theorem ule_entry_ok : si_ule a b = Ok r -> entry_ok (OULE, [], [asi a; asi b], atri r).
+Proof. intros Hr. cmp_entry ule_sound Hr. apply (atri_ok (x <= y)); [unfold bvule; apply Z.leb_le|exact Ht|exact Hf]. Qed.
+
+Theorem ugt_entry_ok : si_ugt a b = Ok r -> entry_ok (OUGT, [], [asi a; asi b], atri r).
+Proof. intros Hr. cmp_entry ugt_sound Hr. apply (atri_ok (x > y)); [unfold bvugt; rewrite Z.ltb_lt; lia|exact Ht|exact Hf]. Qed.
+
+Theorem uge_entry_ok : si_uge a b = Ok r -> entry_ok (OUGE, [], [asi a; asi b], atri r).
+Proof. intros Hr. cmp_entry uge_sound Hr. apply (atri_ok (x >= y)); [unfold bvuge; rewrite Z.leb_le; lia|exact Ht|exact Hf]. Qed.
+
+Theorem slt_entry_ok : si_slt a b = Ok r -> entry_ok (OSLT, [], [asi a; asi b], atri r).
+Proof.
+  intros Hr. cmp_entry slt_sound Hr.
+  apply (atri_ok (sgn (bits a) x < sgn (bits a) y)); [unfold bvslt; change sval with sgn; apply Z.ltb_lt|exact Ht|exact Hf].
+Qed.
+
+Theorem sle_entry_ok : si_sle a b = Ok r -> entry_ok (OSLE, [], [asi a; asi b], atri r).
+Proof.
+  intros Hr. cmp_entry sle_sound Hr.
+  apply (atri_ok (sgn (bits a) x <= sgn (bits a) y)); [unfold bvsle; change sval with sgn; apply Z.leb_le|exact Ht|exact Hf].
+Qed.
+
+Theorem sgt_entry_ok : si_sgt a b = Ok r -> entry_ok (OSGT, [], [asi a; asi b], atri r).
+Proof.
+  intros Hr. cmp_entry sgt_sound Hr.
+  apply (atri_ok (sgn (bits a) x > sgn (bits a) y)); [unfold bvsgt; change sval with sgn; rewrite Z.ltb_lt; lia|exact Ht|exact Hf].
+Qed.
+
+Theorem sge_entry_ok : si_sge a b = Ok r -> entry_ok (OSGE, [], [asi a; asi b], atri r).
+Proof.
+  intros Hr. cmp_entry sge_sound Hr.
+  apply (atri_ok (sgn (bits a) x >= sgn (bits a) y)); [unfold bvsge; change sval with sgn; rewrite Z.leb_le; lia|exact Ht|exact Hf].
+Qed.
+End Cmp.
